@@ -20,10 +20,10 @@ func registerC18(names []string) {
 		ID: "C18", Level: "exploration", Engine: "E1 cluster + light-client drivers",
 		Rule: e1.C18Rule + " Every fourth run installs a side chain's trust root through one light-client driver (" + strings.Join(names, ", ") +
 			"): the driver's well-formed installation payload is first submitted unsigned, signed by an outsider, by one validator alone and by a too-small subset of the operator multi-signature (each must fail and write nothing), then with the operator witness (must be accepted: probe).",
-		Real:           append(append([]string{}, e1.E1Real...), "header_sync SyncGenesisHeader of every router with a driver"),
-		Stub:           e1.E1Stub,
-		Assumptions:    []string{"routers covered are those with a driver; Harmony cannot be built here"},
-		QuickRuns:      128, ThoroughRuns: 6000, QuickCap: 110, ThoroughCap: 900,
+		Real:        append(append([]string{}, e1.E1Real...), "header_sync SyncGenesisHeader of every router with a driver"),
+		Stub:        e1.E1Stub,
+		Assumptions: []string{"routers covered are those with a driver; Harmony cannot be built here"},
+		QuickRuns:   128, ThoroughRuns: 6000, QuickCap: 110, ThoroughCap: 900,
 		RequiredProbes: append(append([]string{}, e1.C18Probes...), "trust_root_without_operator_witness_rejected", "trust_root_with_operator_witness_installed"),
 		Generate: func(rng *kernel.RNG, idx int, tier string) *kernel.Plan {
 			if idx%4 != 3 {
